@@ -13,6 +13,7 @@ import (
 	pb "google.golang.org/protobuf/proto"
 
 	"verif/harness/internal/hx"
+	"verif/harness/internal/kvsafe"
 )
 
 // snapshot leg (real directories: the snapshot sender and the snapshot loader of server/kv use the os
@@ -29,7 +30,7 @@ import (
 func senderChunks(entries []*proto.LogEntry, term int64) []*proto.SnapshotChunk {
 	defer setFS(setFS(nil))
 	dir := newDir("sender")
-	f, err := kv.NewPebbleKVFactory(&kv.FactoryOptions{DataDir: dir, CacheSizeMB: 4})
+	f, err := kvsafe.New(&kv.FactoryOptions{DataDir: dir, CacheSizeMB: 4})
 	must(err)
 	db, err := kv.NewDB(ns, shardId, f, time.Hour, time2.SystemClock)
 	must(err)
